@@ -220,7 +220,7 @@ func richSubtitles(r *fw.Rand) *astisub.Subtitles {
 					tr := true
 					col := "#ff0000"
 					li.InlineStyle = &astisub.StyleAttributes{SRTBold: r.Bool(), SRTItalics: r.Bool(), STLItalics: &tr, SSAEffect: fw.Pick(r, []string{"", `{\i1}`}), TTMLColor: &col,
-						WebVTTTags: []astisub.WebVTTTag{{Name: "c", Classes: []string{"x"}}}}
+						WebVTTTags: []astisub.WebVTTTag{{Name: "c", Classes: fw.Pick(r, [][]string{{"x"}, {"loud", "big"}, {"z", "a", "m"}})}}}
 					if r.Bool() {
 						li.InlineStyle.SRTColor = &col
 					}
